@@ -11,6 +11,7 @@ CONSTANTS
  MaxServes = 1
  MaxApplies = 1
  Faults = FALSE
+ KeepHist = TRUE
 INVARIANT LogNoRepeats
 INVARIANT LogEndRecorded
 INVARIANT PerClientOrder
